@@ -4,7 +4,7 @@
     the diff model (Model/Diff.v) and [trivial_merge] (Model/Merge.v). *)
 From Coq Require Import Lia Arith ZArith Sorted.
 From Verif Require Import Base.Prelude Model.Merge Model.Diff Model.Files Model.C04
-     Proofs.C02 Proofs.FilesDen Proofs.DiffA2 Proofs.DiffA4 Proofs.DiffEq Proofs.DiffThm Proofs.C04.
+     Proofs.C02 Proofs.FilesDen Proofs.DiffA2 Proofs.DiffA4 Proofs.DiffEq Proofs.DiffThm Proofs.C04 Proofs.DiffB4.
 
 (** The laws are proved relative to the following hypotheses on the matching function of the
     diff (Layer B of the diff model): its results are in range and strictly increasing in
@@ -75,23 +75,34 @@ Theorem C04_model_laws_ok : forall M,
   laws_okb terms accept (merge M accept word terms) = true.
 Proof. exact model_laws_ok. Qed.
 
-(** The hypotheses, for the executable histogram matching (proved or not: see props/C04.json;
-    checked on every case by [C04.self_identity_okb] and by C03's validators). *)
-Definition C04_layerB_hyps : Prop :=
+(** The three hypotheses hold for the modelled histogram matching (Layer B of the diff
+    model: proved in Proofs/DiffB1..B5), so the laws hold unconditionally for the model. *)
+Theorem C04_layerB_hyps :
   (forall a b, valid_matching (length a) (length b) (M_hist a b))
   /\ (forall a b, eq_matching a b (M_hist a b))
   /\ (forall a, M_hist a a = identity_matching (length a)).
-
-Definition C04_full : Prop :=
-  forall (accept word : bool) (terms : list bytes) (X : bytes),
-    Nat.odd (length terms) = true ->
-    (forall v, den bytes_eqb terms v = if bytes_eqb X v then 1%Z else 0%Z) ->
-    merge M_hist accept word terms = [X].
-
-Theorem C04_full_from_layerB : C04_layerB_hyps -> C04_full.
 Proof.
-  intros (V & E & S) accept word terms X Ho Hd.
-  now apply (cancel_law M_hist V E S accept word terms X Ho Hd).
+  split; [intros a b; apply M_hist_valid|]. split; [intros a b; apply M_hist_valid|exact M_hist_self].
+Qed.
+
+Theorem C04_cancel_law_hist : forall (accept word : bool) (terms : list bytes) (X : bytes),
+  Nat.odd (length terms) = true ->
+  (forall v, den bytes_eqb terms v = if bytes_eqb X v then 1%Z else 0%Z) ->
+  merge M_hist accept word terms = [X]
+  /\ merge_hunks M_hist accept word terms = Resolved X
+  /\ try_merge M_hist accept word terms = Some X.
+Proof.
+  destruct C04_layerB_hyps as (V & E & S). exact (cancel_law M_hist V E S).
+Qed.
+
+Theorem C04_same_sides_hist : forall (word : bool) (terms : list bytes) (S B : bytes),
+  Nat.odd (length terms) = true ->
+  Forall (fun a => a = S) (evens terms) -> Forall (fun r => r = B) (odds terms) ->
+  merge M_hist true word terms = [S]
+  /\ merge_hunks M_hist true word terms = Resolved S
+  /\ try_merge M_hist true word terms = Some S.
+Proof.
+  destruct C04_layerB_hyps as (V & E & Sf). exact (same_sides_law M_hist V E Sf).
 Qed.
 
 (** Identical sides over two different bases are two different changes and stay conflicted
@@ -117,3 +128,4 @@ Proof. vm_compute. repeat split; intros v [<-|[<-|[<-|[<-|[]]]]]; reflexivity. Q
 Print Assumptions C04_cancel_law.
 Print Assumptions C04_same_sides.
 Print Assumptions C04_laws_okb_spec.
+Print Assumptions C04_cancel_law_hist.
